@@ -79,7 +79,7 @@ for i, d in enumerate(ARGS["docs"]):
         out.append(rec)
         continue
     try:
-        rec["out"] = XmlSerializer(context=ctx, config=SerializerConfig(indent="  " if i % 3 == 0 else None)).render(obj)
+        rec["out"] = XmlSerializer(context=ctx, config=SerializerConfig(indent="  " if i % 3 == 0 else None)).render(obj, ns_map=dict(ARGS["ns_map"]) if ARGS.get("ns_map") else None)
     except Exception as e:
         rec["render_error"] = type(e).__name__ + ": " + str(e)[:600]
     out.append(rec)
